@@ -138,8 +138,10 @@ def check_qasm(ctx: Ctx):
     v3 = repo.func("qcircuit.exporter_qasm.QasmExporter.export_v3")
 
     def gate_part(fi):
+        from ..core import real_body
+
         out = []
-        for s in fi.body:
+        for s in real_body(fi.body):
             if isinstance(s, ast.If) and "mode" in norm(s.test) and "gate" in norm(s.test):
                 out.append(norm(s))
                 break
